@@ -75,8 +75,22 @@ class SetEncoder(AbstractItemEncoder):
         namedTypes = value.componentType
         substrate = self.protoDict()
 
-        for idx, (key, subValue) in enumerate(value.items()):
-            if namedTypes and namedTypes[idx].isOptional and not value[idx].isValue:
+        # presence is looked up before items() instantiates the members:
+        # once instantiated, an absent OPTIONAL member whose own members
+        # are all DEFAULT would pass for a value
+        absent = set()
+
+        if namedTypes:
+            for idx, namedType in enumerate(namedTypes.namedTypes):
+                if namedType.isOptional:
+                    component = value.getComponentByPosition(
+                        idx, default=None, instantiate=False)
+
+                    if component is None or not component.isValue:
+                        absent.add(namedType.name)
+
+        for key, subValue in value.items():
+            if key in absent:
                 continue
             substrate[key] = encodeFun(subValue, **options)
         return substrate
